@@ -74,7 +74,7 @@ impl Prop for C14 {
         Some("B x B for single completions in text and binary mode".into())
     }
     fn cases(&self, tier: Tier) -> u64 {
-        tier.pick(6_000, 200_000)
+        tier.pick(100000, 1000000)
     }
     fn choice_len(&self) -> usize {
         128
